@@ -176,21 +176,41 @@ def match_d13(case, kind, detail):
     return kind == 'internal' and detail[1:3] == ['Internal', 'UnicodeError'] and has_surrogate_escape(case)
 
 
-def hidden_manifests(case):
-    """a Manifest below a hidden directory that is referenced by a MANIFEST entry"""
+def unwalked_manifests(case):
+    """a Manifest that is referenced by a MANIFEST entry but lies below a hidden or an IGNOREd directory"""
+    pm = pre_manifests(case)
+    ignores = []
+    for m, ents in pm.items():
+        d = os.path.dirname(m)
+        ignores += [OX.norm(d, e[1].rstrip('/') or e[1]) for e in ents if e[0] == 'IGNORE']
     out = []
-    for m, ents in pre_manifests(case).items():
+    for m, ents in pm.items():
         d = os.path.dirname(m)
         for e in ents:
             if e[0] == 'MANIFEST':
                 tgt = OX.norm(d, e[1])
-                if OX.hidden(tgt) and case.tree.lookup(tgt) is not None:
+                if case.tree.lookup(tgt) is not None and (OX.hidden(tgt) or any(OX.under(tgt, i) for i in ignores)):
                     out.append(tgt)
     return out
 
 
 def match_d12(case, kind, detail):
-    return kind == 'internal' and detail[1:3] == ['Internal', 'AssertionError'] and bool(hidden_manifests(case))
+    return kind == 'internal' and detail[1:3] == ['Internal', 'AssertionError'] and bool(unwalked_manifests(case))
+
+
+_NUL = re.compile(rb'\\(x00|u0000|U00000000)')
+
+
+def match_d23(case, kind, detail):
+    """a path written with an escape for NUL: ValueError('embedded null byte') from open()/os.*"""
+    if not (kind == 'internal' and detail[1:3] == ['Internal', 'ValueError']):
+        return False
+    for p, ino in case.tree.files():
+        if os.path.basename(p).startswith('Manifest'):
+            raw = OX.plain_bytes(p, case.tree.nodes[ino]['data'])
+            if raw and _NUL.search(raw):
+                return True
+    return False
 
 
 def match_d21_internal(case, kind, detail):
@@ -200,9 +220,9 @@ def match_d21_internal(case, kind, detail):
 def match_d8(case, kind, detail):
     """old-ebuild profile: a new file typed AUX (a path with a files/ component at depth 3) whose governing Manifest
     is not the package's: the entry class is built with the full path"""
-    return kind == 'internal' and detail[1:3] == ['Internal', 'AssertionError'] and case.opts[4] == 'old-ebuild' \
+    return kind == 'internal' and detail[1:2] == ['Internal'] and detail[2] in ('AssertionError', 'AttributeError') and case.opts[4] == 'old-ebuild' \
         and any('files' in p.split('/')[2:3] for p, _ in case.tree.files())
 
 
 MATCHERS = {'D11': match_d11, 'D20': match_d20, 'D21': lambda c, k, d: match_d21(c, k, d) or match_d21_internal(c, k, d),
-            'D13': match_d13, 'D12': match_d12, 'D8': match_d8}
+            'D13': match_d13, 'D12': match_d12, 'D8': match_d8, 'D23': match_d23}
